@@ -29,6 +29,7 @@ func LeafTemplates() []Op {
 		Op{K: "seekrel", Off: 5},
 		Op{K: "rootraw", W: 8, D: "not"},
 		Op{K: "u", W: 8, Name: "a"}, // forced name: produces duplicates
+		Op{K: "rmlast"},             // Value.Remove of the field added last to the current compound
 	)
 	return t
 }
